@@ -137,3 +137,48 @@ Fixpoint machine_obs_from (g : gst) (ds : list doc) : obs_t :=
   end.
 Definition machine_obs (c : case) : obs_t :=
   machine_obs_from {| g_store := c_init c; g_next := 0; g_envs := [] |} (c_docs c).
+
+(* ------------------------------------------------------------------ *)
+(* Refinement statement (proved in Parse/MachineRefine.v): the abstract model of Parse/Model.v,
+   run with the supply that the machine's draws define, is the machine. *)
+Section Refine.
+  Variable nid : N -> N -> N.
+
+  (* the state of the parser's table when the call ends *)
+  Definition m_final (g : gst) (d : doc) : mst :=
+    fst (m_stmts nid (alloc_of d) (d_target d)
+           (m_open (alloc_of d) (start_env (g_envs g) d) (g_next g)) (g_store g) (d_stmts d)).
+
+  (* the abstract supply of the call, as a function of the machine state: the node the table holds
+     for the label - [nid k 0] with k the number of the uuid4 draw (AUuid), [nid sid c] with sid the
+     sink's draw and c the per-call counter (ASink); labels the call never sees do not matter *)
+  Definition m_supply (m : mst) (l : N) : N :=
+    match env_get (m_env m) l with Some n => n | None => 0 end.
+
+  (* call after call, the abstract step with that supply yields the machine's dicts and store *)
+  Fixpoint refines (g : gst) (ds : list doc) : Prop :=
+    match ds with
+    | [] => True
+    | d :: r =>
+        let g' := m_call nid g d in
+        call_step (m_supply (m_final g d)) (g_envs g) (g_store g) d = (g_envs g', g_store g') /\
+        refines g' r
+    end.
+
+  (* the abstract run with one supply per call *)
+  Fixpoint run_sups (sups : list (N -> N)) (es : envs) (st : qset) (ds : list doc) : obs_t :=
+    match sups, ds with
+    | fr :: sr, d :: r => let '(es', st') := call_step fr es st d in (d_raised d, st') :: run_sups sr es' st' r
+    | _, _ => []
+    end.
+  Fixpoint m_supplies (g : gst) (ds : list doc) : list (N -> N) :=
+    match ds with
+    | [] => []
+    | d :: r => m_supply (m_final g d) :: m_supplies (m_call nid g d) r
+    end.
+  Fixpoint m_obs (g : gst) (ds : list doc) : obs_t :=
+    match ds with
+    | [] => []
+    | d :: r => let g' := m_call nid g d in (d_raised d, g_store g') :: m_obs g' r
+    end.
+End Refine.
